@@ -204,7 +204,7 @@ func (r *Recorder) Violate(kind string, attrs map[string]string, detail string, 
 	defer r.mu.Unlock()
 	v := Violation{Kind: kind, Attrs: attrs, Detail: detail, Witness: witness}
 	for _, f := range r.findings {
-		if f.Kind != kind {
+		if !matchAttr(f.Kind, kind) {
 			continue
 		}
 		ok := true
